@@ -40,6 +40,7 @@ EXTRA = [
     "try:\n    pass\nexcept E:\n    pass\n",
     "def g():\n    yield 1\n",
     "x = 1e999\ny = a[1:2, ::3]\nz = -1 ** 2\n",
+    "ws = ['a', 'bb']\nm = max((len(w) for w in ws), default=0)\nn = sum((i for i in range(3)), **{})\no = f((x for x in ws), *ws)\n",
     "def h(p=1, /, q=2, *, r=3, **s):\n    return lambda u=p, /, v=q, *w, x=r: (u, v, w, x)\nk = lambda a=1, b=2, /: a\n",
 ]
 
